@@ -60,7 +60,16 @@ def eval_case(case, res: core.ShardResult | None = None) -> list:
             res.rejected += 1
             res.classes["rejected:" + mh.exc_key(e)] += 1
             res.note({"msg": case["msg"], "values": case["values"]}, False, cls)
-        return []
+        # (d) "free = the caller can set it": an assignment of values that are valid for the description (the
+        # reference interpreter encodes it) to the free parameters must not be refused
+        try:
+            refcodec.encode_message(case["msg"], case["values"], rq)
+        except (refcodec.RefReject, refcodec.RefUnsupported):
+            return []
+        except Exception:
+            return []
+        return [_fail("free-not-settable", f"values valid for the description are refused: {type(e).__name__}: {e}", case,
+                      {"exc": mh.exc_key(e)})]
     if res is not None:
         res.accepted += 1
     fails = []
